@@ -195,6 +195,7 @@ def run(ctx):
              ("sun-earth", 2, "lyapunov", dict(amplitude_x=0.05), 8, 1e-6, "fixed", 6),
              ][: ctx.pick(2, 7)]
     systems = {}
+    corrected = []
     for k, (name, L, fam, kw, n_phase, disp, method, order) in enumerate(specs):
         if not ctx.mine(k):
             continue
@@ -212,7 +213,23 @@ def run(ctx):
             label = f"{name}:L{L}:{fam}:{kw}"
             ctx.sample({"orbit": label, "x0": orb.initial_state, "period": orb.period, "phases": n_phase, "displacement": disp})
             check_orbit(ctx, label, orb, float(sysm.mu), n_phase, disp, method, order)
+            corrected.append((label, sysm, pt, np.asarray(orb.initial_state, dtype=float).copy(), float(orb.period), n_phase, disp, method, order))
         guarded(ctx, f"orbit {k}", one)
+
+    # the same periodic orbit described from ANOTHER phase: the initial state is then not on the x-z symmetry plane (y, vx, vz != 0), so
+    # shortcuts that are only valid at a mirror-symmetric point (e.g. stable direction = time-reversal mirror of the unstable one) show
+    def rephased(rec, frac):
+        from hiten.system.orbits.base import GenericOrbit
+        label, sysm, pt, x0, T, n_phase, disp, method, order = rec
+        xr, _ = ref.flow_stm(x0, float(sysm.mu), frac * T)
+        xr = np.asarray(xr, dtype=float).reshape(-1, 6)[-1]
+        orb = GenericOrbit(pt, initial_state=xr)
+        orb.period = T
+        ctx.sample({"orbit": label + f":re-phased@{frac}T", "x0": xr, "period": T})
+        check_orbit(ctx, label + f":re-phased@{frac}T", orb, float(sysm.mu), max(4, n_phase // 2), disp, method, order)
+        ctx.count("P:orbit described from a phase off the symmetry plane examined")
+    for j, rec in enumerate(corrected[: ctx.pick(1, 3)]):
+        guarded(ctx, f"rephased {j}", rephased, rec, [0.3, 0.62, 0.17][j % 3])
 
     # an orbit whose hyperbolic multipliers are negative (NRHO): sign conventions and normalisations that silently assume lambda > 0
     # are only exercised here; supplied through GenericOrbit with a harness-corrected state and period
@@ -238,3 +255,4 @@ def run(ctx):
     ctx.require("5:trajectory is the reference flow of its seed at its signed times", 8 if ctx.nshards == 1 else 2)
     if ctx.nshards == 1:
         ctx.require("N:orbit with negative hyperbolic multipliers examined", 1)
+        ctx.require("P:orbit described from a phase off the symmetry plane examined", 1)
